@@ -30,6 +30,7 @@ namespace vh
     static std::string forcingflat(Tok& t, std::size_t ncell, std::size_t ns);
     static std::string norm(Tok& t, std::size_t ncell, std::size_t ns);
     static std::string rates(Tok& t, std::size_t ncell, std::size_t nproc, bool reuse = false);
+    static std::string cpassign(Tok& t, std::size_t ns, std::size_t ncell);
   };
 
   /// whole-solver cases: (dense L, storage order, LU kind)
